@@ -42,8 +42,11 @@ def run(chk):
         for fp, msg in rd.monitor(sc, log, outcome):
             chk.violation(fp, msg, {"kind": "monitor", "monitor": fp, "scenario": sc})
         if model and outcome == "returned":
-            items.append(rd.coq_item(sc, log))
-            owners.append(sc)
+            if any(r[0] == "iter" for r in log):
+                items.append(rd.coq_item(sc, log))
+                owners.append(sc)
+            else:
+                chk.count("iteration_hook_unavailable")
     res = common.coq_eval_sharded("c15_rt", rd.R_HEADER, items, per_file=15) if items else []
     bad = [(sc, r) for sc, r in zip(owners, res) if r != "None"]
     chk.count("model_agree", len(res) - len(bad))
